@@ -39,14 +39,17 @@ theorem sys_ordered : sys.ordered = true := by decide +kernel
 re-lock repaired by c220e31 would make this, `sys_ordered` and `sys_consistent` fail). -/
 theorem sys_noSelfAcquire : sys.noSelfAcquire = true := by decide +kernel
 
-theorem lock_names : lockNames = ["updateMutex", "workDirMutex", "repoLock", "entryLock"] := by decide
+/-- `lifecycle` is not a lock of the code base: it stands for Caddy's module lifecycle (Provision and
+Cleanup of one checker instance never overlap, Cleanup is not run twice concurrently); the translator
+wraps the `provision` and `cleanup` programs in it. -/
+theorem lock_names : lockNames = ["updateMutex", "workDirMutex", "repoLock", "entryLock", "lifecycle"] := by decide
 
 /-- The order found in the code: updateMutex before repoLock before entryLock (Close and
 getOrAddEntry hold repoLock and then take / create entry locks; nothing requests repoLock while
 holding an entryLock: updateCrlEntry calls deleteEntrySync after updateEntry released the entry lock);
-workDirMutex is never nested with anything. -/
+workDirMutex is only taken while nothing but the (virtual) lifecycle lock is held, and nothing is taken under it. -/
 theorem lock_order : sys.rank 0 < sys.rank 2 ∧ sys.rank 2 < sys.rank 3 ∧
-    (∀ e ∈ lockNesting, e.1 ≠ 1 ∧ e.2 ≠ 1) := by decide +kernel
+    (∀ e ∈ lockNesting, e.1 ≠ 1 ∧ (e.2 = 1 → e.1 = 4)) := by decide +kernel
 
 /-! ### no deadlock -/
 
@@ -73,70 +76,41 @@ theorem writers_exclusive (c : Config) (hr : Reachable sys c) : Excl c := reacha
 theorem field_names : fieldNames = ["repoMap", "entry.Loaded", "entry.CRLStore", "entry.storeContent",
     "entry.Chains", "entry.LastUpdateSignatureVerifyFailed", "entry.LastUpdateSignature", "entry.CRLLoader",
     "entry.loaderState", "checker.lastCrlUpdateFinishTime", "checker.crlUpdateStop", "checker.crlUpdateTicker",
-    "workDirsInUse"] := by decide
+    "workDirsInUse", "entry.Closed"] := by decide
 
-/-- (field class, guard lock class): the repository map by repoLock; every field of an entry, the
-content of its store (S.Map / S.Db) and the state of its loader (lastSuccessfulLoader) by that entry's
-entryLock; the per-instance refresh timestamp by updateMutex; workDirsInUse by workDirMutex. The ticker
-handle and the loader reference are never written after initialisation (any guard passes). -/
+/-- (field class, guard lock class): the repository map by repoLock; every field of an entry (incl.
+`Closed`), the content of its store (S.Map / S.Db) and the state of its loader (lastSuccessfulLoader) by
+that entry's entryLock; the per-instance refresh timestamp by updateMutex; workDirsInUse by workDirMutex;
+`crlUpdateStop` is only touched by Provision and Cleanup (module lifecycle) since 19d3285 — the ticker
+goroutine reads a local copy. The ticker handle and the loader reference are never written after
+initialisation (any guard passes). -/
 def guards : List (Nat × Nat) :=
-  [(0, 2), (1, 3), (2, 3), (3, 3), (4, 3), (5, 3), (6, 3), (7, 3), (8, 3), (9, 0), (11, 0), (12, 1)]
+  [(0, 2), (1, 3), (2, 3), (3, 3), (4, 3), (5, 3), (6, 3), (7, 3), (8, 3), (9, 0), (10, 4), (11, 0), (12, 1), (13, 3)]
 
 theorem lockset_ok : sys.lockset guards = true := by decide +kernel
 
-/-
-Full statement (false on the current tree because of `checker.crlUpdateStop`, see below):
-  theorem race_free_all (c) (hr : Reachable sys c) (f : Nat) (hf : f < fieldNames.length) : ¬ ConflictEnabled sys c f
--/
+theorem guards_cover : guards.map (·.1) = List.range fieldNames.length := by decide
 
-/-- No reachable configuration has two threads both about to perform conflicting accesses to the same
-instance of any tracked field other than `checker.crlUpdateStop`. -/
-theorem race_free_partial (c : Config) (hr : Reachable sys c) (f : Nat) (hf : f < fieldNames.length)
-    (hne : f ≠ 10) : ¬ ConflictEnabled sys c f := by
+/-- **No data race**: no reachable configuration (any number of threads of the seven kinds, any number of
+checker instances and entries, any schedule) has two threads both about to perform conflicting accesses
+(at least one write) to the same instance of any tracked field. -/
+theorem race_free_all (c : Config) (hr : Reachable sys c) (f : Nat) (hf : f < fieldNames.length) :
+    ¬ ConflictEnabled sys c f := by
   have hl : ∀ gf ∈ guards, sys.locksetField gf.2 gf.1 = true := by
     have := lockset_ok
     unfold Sys.lockset at this
     rw [List.all_eq_true] at this
     exact this
-  have hcase : f = 0 ∨ f = 1 ∨ f = 2 ∨ f = 3 ∨ f = 4 ∨ f = 5 ∨ f = 6 ∨ f = 7 ∨ f = 8 ∨ f = 9 ∨ f = 11 ∨ f = 12 := by
-    have : fieldNames.length = 13 := by decide
-    omega
-  rcases hcase with h | h | h | h | h | h | h | h | h | h | h | h <;> subst h
-  · exact race_free sys_consistent (hl (0, 2) (by decide)) hr
-  · exact race_free sys_consistent (hl (1, 3) (by decide)) hr
-  · exact race_free sys_consistent (hl (2, 3) (by decide)) hr
-  · exact race_free sys_consistent (hl (3, 3) (by decide)) hr
-  · exact race_free sys_consistent (hl (4, 3) (by decide)) hr
-  · exact race_free sys_consistent (hl (5, 3) (by decide)) hr
-  · exact race_free sys_consistent (hl (6, 3) (by decide)) hr
-  · exact race_free sys_consistent (hl (7, 3) (by decide)) hr
-  · exact race_free sys_consistent (hl (8, 3) (by decide)) hr
-  · exact race_free sys_consistent (hl (9, 0) (by decide)) hr
-  · exact race_free sys_consistent (hl (11, 0) (by decide)) hr
-  · exact race_free sys_consistent (hl (12, 1) (by decide)) hr
+  have hmem : f ∈ guards.map (·.1) := by
+    rw [guards_cover]; exact List.mem_range.mpr hf
+  obtain ⟨gf, hgf, rfl⟩ := List.mem_map.mp hmem
+  exact race_free sys_consistent (hl gf hgf) hr
 
-/-- Finding: no lock guards `checker.crlUpdateStop` — Cleanup writes it (`c.crlUpdateStop = nil`) and the
-ticker goroutine reads it on every iteration of its select loop, both holding nothing. -/
-theorem crlUpdateStop_unguarded : ∀ g ∈ List.range lockNames.length, sys.locksetField g 10 = false := by
-  decide +kernel
-
-/-- thread 0 = cleanup, thread 1 = ticker goroutine, same checker instance -/
-def raceStart : Config := [(3, 0, 0), (4, 0, 0)].map fun p => startThread sys p.1 p.2.1 p.2.2
-
-/-- cleanup runs alone up to its write of crlUpdateStop, then the ticker goroutine runs alone up to its read -/
-def raceSched : List (Nat × Nat × Nat) :=
-  schedOf 0 0 ((prog_cleanup.pathTo (fun _ => false) (fun n => n.instr == .wr 10)).getD []) ++
-  schedOf 1 0 ((prog_ticker.pathTo (fun _ => false) (fun n => n.instr == .rd 10)).getD [])
-
-/-- Counterexample to the full statement: a reachable configuration in which Cleanup is about to write
-`crlUpdateStop` (crlrevocationchecker.go, `c.crlUpdateStop = nil`) while the ticker goroutine is about to
-read it (`case <-c.crlUpdateStop`). -/
-theorem crlUpdateStop_race_counterexample : ∃ c, Reachable sys c ∧ ConflictEnabled sys c 10 := by
-  have h : ∃ c, runSched sys raceStart raceSched = some c ∧ conflictNow sys c 0 1 10 = true := by
-    decide +kernel
-  obtain ⟨c, hrun, hconf⟩ := h
-  refine ⟨c, runSched_reachable _ _ _ (Reachable.init ?_) hrun, conflictNow_sound hconf⟩
-  exact init_start [(3, 0, 0), (4, 0, 0)] (by decide)
+/-- The race found on the first run of this check (Cleanup's `c.crlUpdateStop = nil` against the ticker
+goroutine's `case <-c.crlUpdateStop`, repaired by 19d3285) would show here: the ticker goroutine no longer
+accesses the field at all. -/
+theorem ticker_does_not_touch_stop_channel :
+    prog_ticker.nodes.all (fun n => n.instr != .rd 10 && n.instr != .wr 10) = true := by decide +kernel
 
 /-! ### OCSP cache handle -/
 
